@@ -1,6 +1,7 @@
 import Pandora.Drv.Util
 import Pandora.Model.C15
 import Pandora.Model.C15Lock
+import Pandora.Model.C15Post
 import Pandora.Spec.C15
 
 /-!
@@ -255,26 +256,60 @@ def renderReq (reqs : List CReq) (rows : Nat) (d : ReqDef) (t : List (String × 
 structure Resp where
   status : Int
   json : Option (List (String × Val))
-  tokHdr : String
+  hdrs : List (String × String)
   body : String
 
-def isSub (needle hay : List Char) : Bool :=
-  match hay with
-  | [] => needle.isEmpty
-  | _ :: t => needle.isPrefixOf hay || isSub needle t
+/-- `http.Header.Get`: the name is canonicalised, i.e. compared case-insensitively; "" when absent -/
+def hdrGet (hdrs : List (String × String)) (name : String) : String :=
+  match hdrs.find? (fun (k, _) => k.toLower == name.toLower) with
+  | some (_, v) => v
+  | none => ""
 
-def respOf (inst : Nat) (oracle : List String) (reqMethod : String) (k : Nat) : Option Resp :=
+def viewOf (r : Resp) : RespView :=
+  { status := r.status, header := fun n => (hdrGet r.hdrs (String.ofList n)).toList, body := r.body.toList }
+
+/-- mirror of the scripted target of harness/cmd/c15/gun.go; `none` = the client gets a transport-level error
+(garbage instead of a response, connection closed, body shorter than announced) -/
+def respOf (inst : Nat) (oracle : List String) (_reqMethod : String) (k : Nat) : Option Resp :=
   let code := match oracle[k]? with | some c => (if c.isEmpty then "k" else c) | none => "k"
   let tok := s!"{inst}x{k}"
   let okBody := "{\"tok\":\"T" ++ tok ++ "\",\"n\":" ++ toString k ++ "}"
   let okJson : List (String × Val) := [("tok", .str ("T" ++ tok)), ("n", .num k)]
-  if code == "g" then none
-  else if code == "c" then (if reqMethod == "POST" then none else none)
-  else if code == "b" then some { status := 200, json := none, tokHdr := "H" ++ tok, body := "{\"tok\":" }
-  else if code == "e" then some { status := 200, json := some [], tokHdr := "H" ++ tok, body := "{}" }
+  let hdrs : List (String × String) :=
+    [("X-Tok", "H" ++ tok), ("X-Kind", "Resp-" ++ code), ("Content-Type", "application/json")]
+  if code == "g" || code == "c" || code == "t" then none
+  else if code == "b" then some { status := 200, json := none, hdrs, body := "{\"tok\":" }
+  else if code == "e" then some { status := 200, json := some [], hdrs, body := "{}" }
   else if code.startsWith "s" then
-    some { status := ((code.drop 1).toString.toInt?).getD 200, json := some okJson, tokHdr := "H" ++ tok, body := okBody }
-  else some { status := 200, json := some okJson, tokHdr := "H" ++ tok, body := okBody }
+    some { status := ((code.drop 1).toString.toInt?).getD 200, json := some okJson, hdrs, body := okBody }
+  else some { status := 200, json := some okJson, hdrs, body := okBody }
+
+def sizeOpOfCode (c : Char) : String :=
+  if c == 'e' then "eq" else if c == 'E' then "=" else if c == 'l' then "lt" else if c == 'L' then "<"
+  else if c == 'g' then "gt" else if c == 'G' then ">" else "?"
+
+/-- one condition of a combined assertion `A<cond>+<cond>…`: s<code> | b<text> | y<Header>~<text> | z<op><val> -/
+def addCond (a : AssertCfg) (c : String) : AssertCfg :=
+  match c.toList with
+  | 's' :: r => { a with status := ((String.ofList r).toInt?).getD 0 }
+  | 'b' :: r => { a with body := a.body ++ [r] }
+  | 'y' :: r =>
+    match (String.ofList r).splitOn "~" with
+    | [h, t] => { a with headers := a.headers ++ [(h.toList, t.toList)] }
+    | _ => a
+  | 'z' :: o :: r => { a with size := some { val := ((String.ofList r).toInt?).getD 0, op := sizeOpOfCode o } }
+  | _ => a
+
+def emptyAssert : AssertCfg := { headers := [], body := [], status := 0, size := none }
+
+def assertOf (p : String) : Option AssertCfg :=
+  let body := (p.drop 1).toString
+  match p.toList.head? with
+  | some 'a' => some (addCond emptyAssert ("s" ++ body))
+  | some 't' => some (addCond emptyAssert ("b" ++ body))
+  | some 'z' => some (addCond emptyAssert p)
+  | some 'A' => some ((body.splitOn "+").foldl addCond emptyAssert)
+  | _ => none
 
 def postOf (p : String) (r : Resp) : Option (List (String × Val)) :=
   let body := (p.drop 1).toString
@@ -286,14 +321,17 @@ def postOf (p : String) (r : Resp) : Option (List (String × Val)) :=
       | some m => (getKey key m).map fun x => [(v, x)]
     | _ => some []
   | some 'h' =>
+    -- h<var>=<Header>/<modifier>/… : the mapping value is `Header|modifier|…`
     match body.splitOn "=" with
-    | [v, h] => if h == "X-Tok" then some [(v, .str r.tokHdr)] else some []
+    | [v, spec] =>
+      match varHeader [(v, (String.intercalate "|" (spec.splitOn "/")).toList)] (viewOf r) with
+      | .ok vs => some vs
+      | .error _ => none
     | _ => some []
-  | some 'a' =>
-    let c := (body.toInt?).getD 0
-    if c != 0 && c != r.status then none else some []
-  | some 't' => if isSub body.toList r.body.toList then some [] else none
-  | _ => some []
+  | _ =>
+    match assertOf p with
+    | some a => if assertResponse a (viewOf r) then some [] else none
+    | none => some []
 
 /-- all postprocessor items of all requests, globally numbered -/
 def postTable (reqs : List CReq) : List String := reqs.flatMap (·.post)
